@@ -322,6 +322,8 @@ class Describer:
         self._r: dict = {}
         self._w: dict = {}
         self.trees: dict = {}
+        self.roots_r: dict = {}
+        self.roots_w: dict = {}
 
     # ------------------------------------------------------------------ identities
     def free_vars(self, f: FuncV) -> dict:
@@ -377,6 +379,7 @@ class Describer:
         if key in self._r:
             return self._r[key]
         self._r[key] = opaque("recursive")
+        self.roots_r[key] = codec
         try:
             paths = self.A.paths(codec, [StreamV("param")])
             tree = build_tree(paths)
@@ -683,6 +686,7 @@ class Describer:
         if key in self._w:
             return self._w[key]
         self._w[key] = opaque("recursive")
+        self.roots_w[key] = (codec, vtype)
         try:
             V = self.I.sym_of_type(("param", "value"), vtype)
             paths = self.A.paths(codec, [StreamV("param"), V])
